@@ -46,6 +46,8 @@ class ManualExecutor(Executor):
         else:
             self.futs.setdefault(sub, []).append(None)   # count attempts only: hold no reference (C12)
         E.emit("DelegateSubmit", f=sub, k=k, s=self.tag)
+        if p.get("on_future"):
+            p["on_future"](fut)     # e.g. a user's done-callback registered before the layer above registers its own
         if not p.get("cancellable", True):
             fut.set_running_or_notify_cancel()
         if retain:
